@@ -280,6 +280,10 @@ CATALOGUE = [
          old="        new_fmt_obj = self._ppt_fmt.clone()\n        new_fmt_obj.remove_columns(columns_names)\n        self._ppt_fmt = new_fmt_obj\n",
          new="        self._ppt_fmt.remove_columns(columns_names)\n",
          note="the original defect (fixed in /repo): stale widths after remove_columns"),
+    dict(id="m13_stale_widths_fmtobj", prop="C13", file="ak/ppobj.py",
+         old="            c.clone() for c in self.columns\n            if c.name not in columns_names\n",
+         new="            c for c in self.columns\n            if c.name not in columns_names\n",
+         note="the original defect through table.fmt.remove_columns (fixed in /repo)"),
     dict(id="m13_inflight", prop="C13", file="ak/ppobj.py",
          old="                    repr_structure.make_record_ch_chunks_all(tl, cp),\n",
          new="                    self._ppt_fmt.repr_structure.make_record_ch_chunks_all(tl, cp),\n",
